@@ -1,0 +1,46 @@
+//! Verification hooks (add-only, compiled only with feature `verif-hooks`).
+//!
+//! A thread-local, optional observer that `meet_pass::dispatch::run_dispatch` calls with a
+//! read-only view of its working state after every outer-loop iteration (one train move) and
+//! once before it returns its plan.  With the feature off nothing of this exists.
+use crate::meet_pass::disp_structs::{DispAuth, TrainIdx};
+use crate::meet_pass::train_disp::TrainDisp;
+use std::cell::RefCell;
+
+/// Where in `run_dispatch` the observer is called from.
+#[derive(Debug, Clone, Copy, PartialEq, Eq)]
+pub enum DispatchPhase {
+    /// After one outer-loop iteration (one train was advanced / rewound).
+    AfterMove,
+    /// Once, just before the timed paths are computed and returned.
+    Final,
+}
+
+/// Read-only view handed to the observer.
+pub struct DispatchView<'a> {
+    pub phase: DispatchPhase,
+    /// train moved in this iteration (None for `Final`)
+    pub train_idx_moved: TrainIdx,
+    pub link_disp_auths: &'a [Vec<DispAuth>],
+    pub links_blocked: &'a [TrainIdx],
+    pub train_disps: &'a [TrainDisp],
+}
+
+type Observer = Box<dyn FnMut(&DispatchView)>;
+
+thread_local! {
+    static DISPATCH_OBSERVER: RefCell<Option<Observer>> = RefCell::new(None);
+}
+
+/// Install (or with `None` remove) the dispatch observer of the current thread.
+pub fn set_dispatch_observer(obs: Option<Observer>) {
+    DISPATCH_OBSERVER.with(|o| *o.borrow_mut() = obs);
+}
+
+pub(crate) fn observe_dispatch(view: &DispatchView) {
+    DISPATCH_OBSERVER.with(|o| {
+        if let Some(f) = o.borrow_mut().as_mut() {
+            f(view)
+        }
+    });
+}
